@@ -1,4 +1,4 @@
-import Xandikos.Theorems.C01
+import Xandikos.Theorems.C01Http
 #print axioms Xandikos.Theorems.C01.run_refines_spec
 #print axioms Xandikos.Theorems.C01.get_returns_last_ack_write
 #print axioms Xandikos.Theorems.C01.listing_is_live_members
@@ -6,3 +6,9 @@ import Xandikos.Theorems.C01
 #print axioms Xandikos.Theorems.C01.write_is_local
 #print axioms Xandikos.Theorems.C01.restart_keeps_contents
 #print axioms Xandikos.Theorems.C01.all_backends
+#print axioms Xandikos.Theorems.C01.fileAt_setColl
+#print axioms Xandikos.Theorems.C01.import_in_coll_local
+#print axioms Xandikos.Theorems.C01.http_put_is_local
+#print axioms Xandikos.Theorems.C01.store_noop
+#print axioms Xandikos.Theorems.C01.putExec_non_ok
+#print axioms Xandikos.Theorems.C01.http_put_non_ok_is_noop
